@@ -1,7 +1,7 @@
 """C12 — end-to-end acceptance part: the Thrift and ThriftMux clients built by the public builders over a
 fake network with scripted servers; Lean monitors (Adapter/E2E.lean) judge the event log."""
 import e2e
-from props import c11
+from props import c08, c11
 
 PROPERTY = 'C12'
 COMPONENT = 'e2e12'
@@ -18,18 +18,38 @@ MUX_FOCUS = 'timeouts'      # the multiplexed hop on its own: scripts for compon
 def gen_script(rng, tier):
     """half of the scripts drive the assembled stacks (component e2e12), half the real mux transport sink on a
     fake socket (component `tagpool`, judged by the Lean spec12: C11 + own-reply + C12 clauses)"""
-    if rng.random() < 0.5:
+    r = rng.random()
+    if r < 0.4:
         return e2e.gen_script(rng, tier)
+    if r < 0.65:
+        # the serial transport on the step-controlled socket (component `serial12`: no frame of a
+        # request after its TimeoutError; an expired request is never written)
+        return c08._gen_serial(rng, rng.choice([8, 14, 22]))
     if rng.random() < 0.8:
         return c11.gen_script_focus(rng, tier, MUX_FOCUS)
     return c11.gen_script(rng, tier)
 
 
+def exhaustive(tier, shard, shards):
+    """every serial fault position x kind x recovery tail of C08's enumeration, judged by C12's clauses"""
+    k = 0
+    for ops in c08._serial_cases():
+        k += 1
+        if k % shards == shard:
+            yield {'t': 'serial', 'ops': ops}
+
+
 def shrink(script):
+    if script.get('t') == 'serial':
+        return c08.shrink(script)
     return c11.shrink(script) if 'ops' in script else e2e.shrink(script)
 
 
 def run_script(script):
+    if script.get('t') == 'serial':
+        case = c08.run_script(script)
+        case['comp'] = 'serial12'
+        return case
     if 'ops' in script:
         return c11.run_script(script)
     return e2e.run_script(script, COMPONENT)
@@ -38,4 +58,4 @@ def run_script(script):
 def nontrivial(case):
     t = set(case.get('tags', []))
     return bool(t & {'timed-out', 'released', 'reordered', 'conn-killed', 'unreachable', 'pre-open', 'discard-sent'}) \
-        or c11.nontrivial(case)
+        or c11.nontrivial(case) or c08.nontrivial(case)
